@@ -91,9 +91,16 @@ def emit(repo):
         em.append('(%s, %s)' % (_lstr(label), _lstr(e)))
 
     # ---- object path character class
-    rx = marshal.invalid_obj_path_re
-    allowed = [c for c in range(0x110000) if rx.search(chr(c)) is None]
-    rngs = _ranges(allowed)
+    # `invalid_obj_path_re` is a private name a harmless commit may rename (harmless/C18h4): fast path when it
+    # exists, otherwise the same table through the name-independent two-route derivation of Gen.Validators
+    # (probing validateObjectPath + scanning the module for a compiled pattern that reproduces the behaviour).
+    rx = getattr(marshal, 'invalid_obj_path_re', None)
+    if rx is not None and hasattr(rx, 'search'):
+        allowed = [c for c in range(0x110000) if rx.search(chr(c)) is None]
+        rngs = _ranges(allowed)
+    else:
+        from tables import c18_validators
+        rngs = [tuple(r) for r in c18_validators.object_path_allowed(repo)]
     if len(rngs) > 64:
         raise TranslatorError('object-path class has too many ranges')
 
